@@ -20,7 +20,10 @@ import (
 // judgeC02: no recovered-panic result, no escaping panic, every fatal is an
 // explicit decision of the lint body (configuration is left empty).
 func judgeC02(rec *stats.Rec, c engine.Case) (string, string, *engine.Run) {
-	run := engine.Execute(c, true)
+	return judgeC02Run(rec, c, engine.Execute(c, true))
+}
+
+func judgeC02Run(rec *stats.Rec, c engine.Case, run *engine.Run) (string, string, *engine.Run) {
 	if !run.Parsed {
 		rec.Class("parse_rejected")
 		return "", "", run
@@ -144,9 +147,9 @@ func TestC02(t *testing.T) {
 		if err != nil {
 			continue
 		}
-		nl := len(root.Leaves())
-		for leaf := 0; leaf < nl; leaf++ {
-			for e := 0; e < gen.NumLeafEdits; e++ {
+		lvs := root.Leaves()
+		for leaf := 0; leaf < len(lvs); leaf++ {
+			for e, ne := 0, gen.LeafEditCount(lvs[leaf]); e < ne; e++ {
 				k++
 				if (k+off)%stride != 0 || !stats.Mine(k/stride) {
 					continue
@@ -167,6 +170,20 @@ func TestC02(t *testing.T) {
 	}
 	rec.ClassN("sweep_cases", int64(sweepDone))
 	rec.Exhaustive("single-edit-sweep", stride == 1)
+	// home sweep: every lint's own single-edit neighbourhood (enumerated in both tiers)
+	homeSweep(rec, stats.Scale(2, 4), true, "c02", func(c engine.Case, run *engine.Run) (string, string) {
+		sig, msg, _ := judgeC02Run(rec, c, run)
+		if msg == "" && run.Parsed {
+			for n, e := range run.Exp {
+				_ = n
+				if e.Stage == model.StExecuted {
+					rec.NT(stats.Hash(c.DER))
+					break
+				}
+			}
+		}
+		return sig, msg
+	}, func(s string) { t.Fatalf("%s", s) })
 	rapidRun(t, "generated", perShard(stats.Scale(60000, 2000000)), func(rt *rapid.T) {
 		c := drawObject(rt, 4, true)
 		if sig, msg := judge(c); msg != "" {
